@@ -3,4 +3,4 @@ Require Extraction.
 Require Import ExtrOcamlBasic.
 From Verif.C10 Require Import Model.
 Extraction "model_ml.ml" init step run timely timely_a timely_b all_stored all_closed held_present
-  short_backups dunm dmk view_pids plan_ok slow_prune_run slow_prune_kd.
+  short_backups premise dunm dmk view_pids plan_ok slow_prune_run slow_prune_kd.
